@@ -598,6 +598,19 @@ func oracle(c Case, idx int, peers map[uint64]*peerInfo, out *ChildOut) {
 				viol("gap", fmt.Sprintf("reader %d: first message from writer %d is seq %d, but seq %d was sent after the reader joined", s.N, w, f, wf))
 			}
 		}
+		if s.End == 1 {
+			// a queue of the documented capacity overflows only when more messages than that were sent to
+			// the reader while it was joined
+			total := 0
+			for i, o := range c.Ops {
+				if o.K == "send" && o.Ack && o.N != s.N && i > pi.joinedAt && has(peers[o.N].scopes, "write") && peers[o.N].ts == pi.ts {
+					total++
+				}
+			}
+			if dc := documentedCap(c.Conf); total <= dc {
+				viol("cut-below-capacity", fmt.Sprintf("reader %d was cut by the relay although only %d messages were sent to it in all and the relay was configured with BufferSize %d (documented capacity %d)", s.N, total, c.Conf, dc))
+			}
+		}
 		if s.End == 0 {
 			for w, wl := range wantLast {
 				if last[w] != wl {
@@ -626,14 +639,22 @@ func childMain(in, out string) {
 	if err := json.Unmarshal(b, &cases); err != nil || len(cases) == 0 {
 		os.Exit(3)
 	}
-	k := hubkit.Start(lib.RelayOpts{BufferSize: int64(cases[0].Cap)})
+	conf := cases[0].Conf
+	if !cases[0].Raw && conf == 0 {
+		conf = cases[0].Cap // replay files written before Conf existed
+	}
+	k := hubkit.Start(lib.RelayOpts{BufferSize: int64(conf), RawBufferSize: cases[0].Raw})
 	k.Slack = 6 * time.Second
 	co := &ChildOut{Dist: map[string]int{}}
 	for i := range cases {
 		c := &cases[i]
 		peers := runScenario(k, c, co.Dist)
 		co.Dist["kind:"+c.Kind]++
-		co.Dist[fmt.Sprintf("cap:%d", c.Cap)]++
+		if c.Raw {
+			co.Dist[fmt.Sprintf("configured-buffer-size:%d", c.Conf)]++
+		} else {
+			co.Dist[fmt.Sprintf("cap:%d", c.Cap)]++
+		}
 		if c.Discard == "" {
 			oracle(*c, i, peers, co)
 			c.Witness = buildWitness(c)
